@@ -444,6 +444,10 @@ def mutant_scenarios():
     out.append({'n': 1, 'ops': [op('open', 1), op('open', 1)]})
     out.append({'n': 1, 'ops': [op('psafe', 1, [1], True), op('psafe', 1)]})
     out.append({'n': 1, 'ops': [op('open', 1, [1]), op('open', 1)]})
+    # the same histories with two members (a tree may treat the one-member swarm specially)
+    out.append({'n': 2, 'ops': [op('open', 2), op('open', 2)]})
+    out.append({'n': 2, 'ops': [op('psafe', 2, [1], True), op('psafe', 2)]})
+    out.append({'n': 2, 'ops': [op('open', 2, [2]), op('open', 2)]})
     out.append({'n': 2, 'reuse': True, 'ops': [op('seq', 2, (), True), op('psafe', 2, (), True)]})
     return out
 
